@@ -1,6 +1,7 @@
 import Ccp.Spec.Indent
 import Ccp.Proofs.TreeLink
 import Ccp.Proofs.TreeLossless
+import Ccp.Proofs.TreeKeep
 /-!
 # C02 — parent/child links follow the indentation rule
 
@@ -51,6 +52,41 @@ theorem nearestShallower_none (infos : List Info) (k n : Nat) :
       ∀ m l, m < n → infos[m]? = some l → ¬ (l.isCfg = true ∧ l.indent < k) :=
   nearestShallower_eq_none infos k n
 
+/-- **The specification, read declaratively.**  For a line `i` with info `l`:
+an unindented line and a comment under a deeper line are roots; otherwise `p` is the parent
+iff either `p = i` and no earlier configuration line is indented less, or `p < i` is a
+configuration line indented less than `l` and no line strictly between `p` and `i` is. -/
+theorem specParent_spec (infos : List Info) (i : Nat) (l : Info) (hl : infos[i]? = some l) :
+    ((l.indent = 0 ∨ commentUnderDeeper infos i = true) → specParent infos i = i) ∧
+    (¬ (l.indent = 0 ∨ commentUnderDeeper infos i = true) → ∀ p, specParent infos i = p ↔
+      (p = i ∧ ∀ m k, m < i → infos[m]? = some k → ¬ (k.isCfg = true ∧ k.indent < l.indent)) ∨
+      (p < i ∧ (∃ k, infos[p]? = some k ∧ k.isCfg = true ∧ k.indent < l.indent) ∧
+        ∀ m k, p < m → m < i → infos[m]? = some k → ¬ (k.isCfg = true ∧ k.indent < l.indent))) := by
+  unfold specParent
+  rw [hl]
+  refine ⟨fun h => by simp [h], fun h p => ?_⟩
+  simp only [h, if_false]
+  cases hn : nearestShallower infos l.indent i with
+  | none =>
+    have h0 := (nearestShallower_eq_none infos l.indent i).mp hn
+    constructor
+    · intro hp; exact Or.inl ⟨hp.symm, h0⟩
+    · rintro (⟨hp, _⟩ | ⟨hp, ⟨k, hk, hc⟩, _⟩)
+      · exact hp.symm
+      · exact absurd hc (h0 p k hp hk)
+  | some q =>
+    obtain ⟨hq, hc, hbetween⟩ := (nearestShallower_eq_some infos l.indent i q).mp hn
+    constructor
+    · intro hp
+      have : q = p := by simpa using hp
+      subst this; exact Or.inr ⟨hq, hc, hbetween⟩
+    · rintro (⟨_, hnone⟩ | hp)
+      · obtain ⟨k, hk, hc'⟩ := hc
+        exact absurd hc' (hnone q k hq hk)
+      · have := (nearestShallower_eq_some infos l.indent i p).mpr hp
+        rw [hn] at this
+        simpa using this
+
 /-- **Pass 1 computes the specification**: for every configuration of the parser and every
 list of lines, `linkByIndent` returns one parent per line and the parent of line `i` is
 `specParent` of the line infos.  No hypotheses. -/
@@ -95,6 +131,27 @@ theorem parse_links_eq_spec (cfg : Cfg) (ls : List Str)
   rw [h]
   exact ⟨rfl, linkByIndent_eq_map cfg ls, fun p => linkByIndent_children cfg ls _ p⟩
 
+/-- the same with `ignore_blank_lines` on: the blank lines go, and the links of the result are
+the specification applied to the remaining lines -/
+theorem parse_links_eq_spec_ignore_blank (cfg : Cfg) (ls : List Str)
+    (hb : ∀ x ∈ ls, isBannerStart x = false)
+    (hm : cfg.ios = true → ∀ x ∈ ls, isMacroStart x = false)
+    (hi : cfg.ignoreBlank = true) :
+    (parse cfg ls).texts = ls.filter nonBlank ∧
+    (parse cfg ls).parents =
+      (List.range (ls.filter nonBlank).length).map (specParent ((ls.filter nonBlank).map (info cfg))) ∧
+    ∀ p, children (parse cfg ls) p = specChildren ((ls.filter nonBlank).map (info cfg)) p := by
+  have ht : (bootstrap cfg ls).texts = ls.filter nonBlank := by
+    rw [bootstrap_texts_eq_scan cfg hi, keptScan_plain cfg ls hb hm]
+  have h : parse cfg ls = { texts := ls.filter nonBlank, parents := linkByIndent cfg (ls.filter nonBlank),
+                            keep := (ls.filter nonBlank).map (fun _ => false) } := by
+    rw [parse_eq_bootstrap, bootstrap, bootstrapFuel_is_link]
+    show link cfg (bootstrap cfg ls).texts = _
+    rw [ht, link_plain cfg _ (fun x hx => hb x (List.mem_filter.mp hx).1)
+      (fun hios x hx => hm hios x (List.mem_filter.mp hx).1)]
+  rw [h]
+  exact ⟨rfl, linkByIndent_eq_map cfg _, fun p => linkByIndent_children cfg _ _ p⟩
+
 /-- **Syntax independence**, pass 1: the links depend on the configuration only through the
 comment delimiters — not on the syntax (`cfg.ios`), not on `ignore_blank_lines`. -/
 theorem links_syntax_independent (cfg cfg' : Cfg) (ls : List Str) (hd : cfg.delims = cfg'.delims) :
@@ -130,6 +187,8 @@ example : specChildren (ex7.map (info iosCfg)) 0 = [1, 4] ∧ specChildren (ex7.
 example : (parse iosCfg ex7).parents = [0, 0, 1, 3, 0, 4, 4] ∧ (parse nxosCfg ex7).parents = [0, 0, 1, 3, 0, 4, 4] := by decide
 /-- the hypotheses of `parse_links_eq_spec` / `parse_links_syntax_independent` are satisfiable -/
 example : (∀ x ∈ ex7, isBannerStart x = false) ∧ (∀ x ∈ ex7, isMacroStart x = false) := by decide
+example : (parse { iosCfg with ignoreBlank := true } ["a".toList, "".toList, " b".toList, "  ".toList, "  c".toList]).parents
+    = [0, 0, 1] := by decide
 /-- a cached parent is really used and really pruned: indents 1,2,2 (hit), then 1 (prune), 2 -/
 example : linkByIndent iosCfg ["a".toList, " b".toList, "  c".toList, "  d".toList, " e".toList, "  f".toList]
     = [0, 0, 1, 1, 0, 4] := by decide
